@@ -79,7 +79,9 @@ STRING_PATTERN = rf"(?P<{GROUP_QUOTE}>[\"'])(?P<{GROUP_QUOTED}>.*?)(?P={GROUP_QU
 # Rules for the standard boolean expression.
 # Does not support grouping with parentheses.
 _rules = (
-    (TOKEN_RANGE_LITERAL, r"\((?=.+?\.\.)"),
+    # An opening parenthesis starts a range literal if `..` follows before any other
+    # parenthesis. Dots inside quoted strings don't count.
+    (TOKEN_RANGE_LITERAL, r"\((?=(?:[^()'\"]|'[^']*'|\"[^\"]*\")*?\.\.)"),
     (TOKEN_IDENTINDEX, IDENTINDEX_PATTERN),
     (TOKEN_IDENTSTRING, IDENTSTRING_PATTERN),
     (TOKEN_STRING, STRING_PATTERN),
